@@ -179,6 +179,13 @@ package db
 //@   loop 1
 //@     invariant previous == m.frontierIdentifier
 
+// a version handed out is a private copy: whatever the caller applies to it (memdbManager.Add builds the next version on
+// it) cannot reach a version the manager keeps - rolling back to a kept version finds it as it was
+//@ func memdbManager.Get(m, identifier) -> (r)
+//@   inline
+//@   requires m != nil
+//@   ensures[a-private-copy-never-a-kept-version] r != nil ==> fresh(r)
+
 //@ func DB.Snapshot(self)
 //@   ensures result != nil && fresh(result)
 //@   modifies nothing
